@@ -82,10 +82,18 @@ impl Bucket {
         // See if any lower priority nodes are present in the table, we cant do
         // nodes that have equal status because we have to prefer longer lasting
         // nodes in the case of a good status which helps with stability.
+        //
+        // Prefer a slot that holds no live node (empty or bad) so that a live node is only ever
+        // traded for a strictly better one when the bucket has no room left.
         let replace_index = self
             .nodes
             .iter()
-            .position(|node| node.status() < new_node_status);
+            .position(|node| node.status() == NodeStatus::Bad)
+            .or_else(|| {
+                self.nodes
+                    .iter()
+                    .position(|node| node.status() < new_node_status)
+            });
         if let Some(index) = replace_index {
             self.nodes[index] = new_node;
 
